@@ -478,6 +478,8 @@ def run(ctx):
       for proto in ((2,) if not ctx.thorough else (0, 2, 4)):
         if name == 'metric-bytes' and proto < 3:
           proto = 3     # protocols 0-2 pickle bytes through a global (_codecs.encode): that is a frame-level rejection
+        if 'huge-int' in name and proto < 1:
+          proto = 2     # protocol 0 writes integers as decimal text, which python refuses beyond 4300 digits
         tasks.append(('entry', (name, entry, pos, proto)))
   for kind in ('line', 'udp', 'pickle'):
     tasks.append(('mut', (kind, 0)))
